@@ -340,6 +340,10 @@ type c12Entry struct {
 	classify func(a []any, got, want []any) string
 	// blocking: runs wrapper and reference concurrently (both block on the server)
 	blocking bool
+	// fresh: call on a freshly built instance (fresh breaker). Ping folds every
+	// error, including a breaker rejection after many server error replies, into
+	// false, so a rejection could not be told from a wrong answer otherwise.
+	fresh bool
 }
 
 type c12Gen struct {
@@ -641,6 +645,9 @@ func (h *c12Hist) step(e *c12Entry, form c12Form, cancelled bool) bool {
 			defer close(refDone)
 			want, wantErr = e.ref(x, args)
 		}()
+	}
+	if e.fresh {
+		h.side.obj = h.side.rebuild()
 	}
 	for attempt := 0; ; attempt++ {
 		got, gotErr, sigErr = c12Invoke(h.side.obj, name, ctx, form == c12Ctx, callArgs)
